@@ -41,6 +41,37 @@ def stack_discipline(ctx):
         depth = ws[0].value
         if not (prune.dfs_component(depth) and prune.dfs_component(depth)[1] == 'depth'):
             problems.append('last_depth is not set to the depth of the node just delivered')
+    truncs = [(w.bb, w) for w in mut_calls(b, R) if w.callee.name == 'truncate' and w.args[0] == PRED]
+    if not pops and len(truncs) == 1 and len(pushes) == 1 and not problems:
+        # second idiom: the 1 + last_depth - depth newest entries are dropped with one truncate(len - (1 + last_depth - depth))
+        def plain_(e):
+            return ('bin', e[1][1][:-len('WithOverflow')], e[1][2], e[1][3]) if (e[0] == 'field' and e[2] == '0' and e[1][0] == 'bin' and e[1][1].endswith('WithOverflow')) else e
+        tb, tw = truncs[0]
+        n = plain_(tw.args[1])
+        cnt = None
+        if n[0] == 'bin' and n[1] == 'Sub' and is_call(n[2], 'Vec::len') and n[2][2][0] == PRED:
+            cnt = plain_(n[3])
+        elif is_call(n, 'usize::saturating_sub') and is_call(n[2][0], 'Vec::len') and n[2][0][2][0] == PRED:
+            cnt = plain_(n[2][1])
+        ok_cnt = False
+        if cnt is not None and cnt[0] == 'bin' and cnt[1] == 'Sub' and s(cnt[3]) == s(depth):
+            lo = plain_(cnt[2])
+            ok_cnt = lo[0] == 'bin' and lo[1] == 'Add' and {lo[2], lo[3]} == {('const', 1), LD}
+        if not ok_cnt:
+            problems.append('the number of entries dropped is not 1 + last_depth - depth')
+        if not any(op == 'Le' and s(x) == s(depth) and y == LD for op, x, y in prune.cmp_facts(literals(b, R, tb))):
+            problems.append('the truncation is not guarded by depth <= last_depth')
+        if cfg.reaches(ws[0].bb, tb) or not cfg.reaches(tb, pushes[0][0]):
+            problems.append('last_depth is updated before the truncation, or the push does not follow it')
+        plits = literals(b, R, pushes[0][0])
+        if not any(l[0] == 'is' and is_call(l[1], 'Tree::parent') and l[2] == frozenset(['Ok']) for l in plits):
+            problems.append('the push is not conditional on the node having a parent edge')
+        if problems:
+            for p_ in problems:
+                ctx.bad('C09.R3', 'PolyhedraGen::next#stack', p_, b.span)
+        else:
+            ctx.ok('C09.R3', 'PolyhedraGen::next#stack', 'truncates to len - (1 + last_depth - depth) under depth <= last_depth, then last_depth := depth, then one push iff the node has a parent', b.span)
+        return
     if len(pops) != 1 or len(pushes) != 1:
         problems.append('expected one pop site and one push site on the predicate stack')
     if not problems:
